@@ -140,6 +140,18 @@ func (g *gen6) spellC(text string, concatOK bool) (string, string) {
 	return dq(text), "dquote"
 }
 
+// kwArg spells an argument that is a word of the language (true, current, user, unbounded, an identifier, a type name): bare, or quoted
+// like any other argument may be (RFC 7950 6.1.3)
+func (g *gen6) kwArg(word string) string {
+	switch g.r.Intn(4) {
+	case 0:
+		return "\"" + word + "\""
+	case 1:
+		return "'" + word + "'"
+	}
+	return word
+}
+
 func (g *gen6) pad() string { return strings.Repeat(" ", g.ind) }
 
 // ws returns whitespace / comments legal between two tokens.
@@ -240,7 +252,7 @@ func (g *gen6) common(path string, kind string) {
 		if g.cfgFalse > 0 {
 			cfg = false // config true below config false is not a valid module
 		}
-		g.line("config %v;", cfg)
+		g.line("config %s;", g.kwArg(fmt.Sprint(cfg)))
 		g.exp = append(g.exp, exp6{path: path + ".config", want: cfg, stmt: "config"})
 		if !cfg && (kind == "container" || kind == "list") {
 			g.cfgFalse += 1000 // marks: set by this node (undone by the caller)
@@ -254,7 +266,7 @@ func (g *gen6) common(path string, kind string) {
 	}
 	if g.r.Intn(5) == 0 {
 		st := []string{"current", "deprecated", "obsolete"}[g.r.Intn(3)]
-		g.line("status %s;", st)
+		g.line("status %s;", g.kwArg(st))
 		g.exp = append(g.exp, exp6{path: path + ".status", want: map[string]string{"current": "0", "deprecated": "1", "obsolete": "2"}[st], stmt: "status"})
 	}
 	if kind != "choice" && kind != "case" && kind != "anydata" {
@@ -330,7 +342,7 @@ func (g *gen6) node(path string, depth int, name string) {
 	g.exp = append(g.exp, exp6{path: path + ".ident", want: name, stmt: kind + "-ident"})
 	switch kind {
 	case "leaf":
-		g.line("leaf %s {", name)
+		g.line("leaf %s {", g.kwArg(name))
 		g.ind += 2
 		// statement order inside a leaf is free
 		if g.r.Intn(2) == 0 {
@@ -349,21 +361,21 @@ func (g *gen6) node(path string, depth int, name string) {
 		}
 		if g.r.Intn(4) == 0 {
 			m := g.r.Intn(2) == 0
-			g.line("mandatory %v;", m)
+			g.line("mandatory %s;", g.kwArg(fmt.Sprint(m)))
 			g.exp = append(g.exp, exp6{path: path + ".mandatory", want: m, stmt: "mandatory"})
 		}
 		g.ind -= 2
 		g.line("}")
 	case "leaf-list":
-		g.line("leaf-list %s {", name)
+		g.line("leaf-list %s {", g.kwArg(name))
 		g.ind += 2
-		g.line("type string;")
+		g.line("type %s;", g.kwArg("string"))
 		g.common(path, kind)
 		g.listDetails(path)
 		g.ind -= 2
 		g.line("}")
 	case "container":
-		g.line("container %s {", name)
+		g.line("container %s {", g.kwArg(name))
 		g.ind += 2
 		saved := g.cfgFalse
 		defer func() { g.cfgFalse = saved }()
@@ -445,7 +457,7 @@ func (g *gen6) listDetails(path string) {
 	}
 	if g.r.Intn(3) == 0 {
 		if g.r.Intn(3) == 0 {
-			g.line("max-elements unbounded;")
+			g.line("max-elements %s;", g.kwArg("unbounded"))
 			g.exp = append(g.exp, exp6{path: path + ".unbounded", want: true, stmt: "max-elements"})
 		} else {
 			n := 5 + g.r.Intn(100)
@@ -455,7 +467,7 @@ func (g *gen6) listDetails(path string) {
 	}
 	if g.r.Intn(4) == 0 {
 		ob := []string{"user", "system"}[g.r.Intn(2)]
-		g.line("ordered-by %s;", ob)
+		g.line("ordered-by %s;", g.kwArg(ob))
 		g.exp = append(g.exp, exp6{path: path + ".ordered-by", want: map[string]string{"system": "0", "user": "1"}[ob], stmt: "ordered-by"})
 	}
 }
